@@ -68,6 +68,11 @@ Cat2(f, g) == [k \in (DOMAIN f) \cup (DOMAIN g) |->
 Get(f, k, d) == IF k \in DOMAIN f THEN f[k] ELSE d
 Put(f, k, v) == (k :> v) @@ f
 
+\* The time of the event being taken.  Every step first fixes now' (the trace
+\* specification from the time stamp of the line, the model-checking closure by
+\* its clock action) and the rules below are stated in terms of that time.
+T == now'
+
 OK == 0
 CANCELED == 1
 DEADLINE == 4
@@ -77,12 +82,12 @@ DEADLINE == 4
 
 NoCin == [n |-> 0, bodies |-> <<>>, close |-> "", code |-> -1, msg |-> "", ndet |-> 0,
           tmd |-> EmptyF, fmd |-> EmptyF, fbad |-> FALSE, fb |-> 0, fs |-> 0, ft |-> 0,
-          fcode |-> -1, fmsg |-> "", fndet |-> 0, fpay |-> "", badbody |-> FALSE, mayRst |-> FALSE]
+          fcode |-> -1, fmsg |-> "", fndet |-> 0, fpay |-> "", tbad |-> FALSE, mayRst |-> FALSE]
 Cin(id) == Get(cin, id, NoCin)
 
 \* st: none | live | closing | dead
 NoSin == [n |-> 0, items |-> <<>>, rst |-> FALSE, st |-> "none", must |-> 0, may |-> 0,
-          meth |-> "", src |-> "", dst |-> "", nresp |-> 0]
+          hdrs |-> {}, nresp |-> 0]
 Sin(id) == Get(sin, id, NoSin)
 
 Stuck == flt \cap {"cstuck", "sstuck"} # {} \/ parked > 0
@@ -90,16 +95,16 @@ CliDown == flt \cap {"cread", "cwrite"} # {}
 SrvDown == flt \cap {"sread", "swfail", "stop", "serveret"} # {} \/ phase # "run"
 
 CtxDone(c) == \/ calls[c].cancelled
-              \/ calls[c].dl >= 0 /\ now >= calls[c].dl
+              \/ calls[c].dl >= 0 /\ T >= calls[c].dl
               \/ phase # "run"
 \* what a context-related status may be for call c
 CtxCodes(c) == (IF calls[c].cancelled \/ phase # "run" \/ "cwrite" \in flt THEN {CANCELED} ELSE {})
-               \cup (IF calls[c].dl >= 0 /\ now >= calls[c].dl THEN {DEADLINE} ELSE {})
+               \cup (IF calls[c].dl >= 0 /\ T >= calls[c].dl THEN {DEADLINE} ELSE {})
 
 \* may the context of handler h be done?
-HCause(h) == \/ Sin(hnds[h].id).rst
+HCause(h) == \/ hnds[h].rst
              \/ SrvDown
-             \/ hnds[h].dl >= 0 /\ now >= hnds[h].dl
+             \/ hnds[h].dl >= 0 /\ T >= hnds[h].dl
 
 -----------------------------------------------------------------------------
 (* Methods                                                                  *)
@@ -128,7 +133,7 @@ Init ==
 (* Client API: starting calls                                               *)
 
 NewCall(kind, pay, md, to) ==
-  [kind |-> kind, id |-> "", pay |-> pay, md |-> md, dl |-> IF to > 0 THEN now + to ELSE -1,
+  [kind |-> kind, id |-> "", pay |-> pay, md |-> md, dl |-> IF to > 0 THEN T + to ELSE -1,
    opened |-> "", sent |-> <<>>, late |-> <<>>, nW |-> 0, nOk |-> 0,
    closeCalled |-> FALSE, closeW |-> FALSE, rstW |-> FALSE, cancelled |-> FALSE,
    recvd |-> 0, term |-> "", tcode |-> -1, uret |-> FALSE, sendFailed |-> FALSE]
@@ -229,6 +234,9 @@ WellFormedReq(env) == /\ env.h = 1
                       /\ env.dst = cfg.srv
                       /\ env.badmd = 0
 
+\* a reset is an envelope whose reset field names the one documented type
+IsRst(env) == env.r = 1 /\ env.rtype = "RST_STREAM"
+
 SrvItem(env) == IF env.t = 1 THEN [k |-> "close", pay |-> "", code |-> IF env.s = 1 THEN env.code ELSE OK]
                 ELSE IF env.b = 1 THEN [k |-> "body", pay |-> env.pay, code |-> -1]
                 ELSE [k |-> "hdr", pay |-> "-", code |-> -1]
@@ -241,22 +249,20 @@ ServerRead(env, n) ==
          s == Sin(id)
          kind == IF env.h = 1 THEN KindOfMeth(env.meth) ELSE ""
          base0 == [s EXCEPT !.n = @ + 1,
-                            !.meth = IF s.n = 0 /\ env.h = 1 THEN env.meth ELSE @,
-                            !.src = IF s.n = 0 /\ env.h = 1 THEN env.src ELSE @,
-                            !.dst = IF s.n = 0 /\ env.h = 1 THEN env.dst ELSE @]
+                            !.hdrs = IF env.h = 1 THEN @ \cup {<<env.meth, env.src, env.dst>>} ELSE @]
      IN
      IF env.h = 0 \/ kind = "" \/ env.dst # cfg.srv
        THEN \* ignored by the server: nothing may happen for it
             /\ sin' = Put(sin, id, base0) /\ UNCHANGED preq
      ELSE IF kind = "unary"
-       THEN IF env.badmd = 0
+       THEN IF env.badmd = 0 /\ ~(env.b = 1 /\ env.pay = "raw!")
               THEN /\ preq' = Append(preq, [c |-> env.c, id |-> id, kind |-> "unary", pay |-> IF env.b = 1 THEN env.pay ELSE "-",
                                             md |-> MdF(env.md), b |-> env.b, meth |-> env.meth, src |-> env.src, dst |-> env.dst])
                    /\ sin' = Put(sin, id, base0)
-              ELSE \* undecodable metadata on a unary request: no handler; any error reply or none
+              ELSE \* undecodable metadata or body on a unary request: no handler; an error reply
                    /\ sin' = Put(sin, id, [base0 EXCEPT !.may = @ + 1]) /\ UNCHANGED preq
      ELSE \* a streaming method
-       IF env.r = 1
+       IF IsRst(env)
          THEN /\ sin' = Put(sin, id, [base0 EXCEPT !.rst = TRUE]) /\ UNCHANGED preq
        ELSE IF s.st = "live"
          THEN /\ sin' = Put(sin, id, [base0 EXCEPT !.items = Append(@, SrvItem(env))]) /\ UNCHANGED preq
@@ -272,7 +278,11 @@ ServerRead(env, n) ==
               /\ sin' = Put(sin, id, [base0 EXCEPT !.st = "live", !.items = <<>>, !.rst = FALSE])
               /\ preq' = Append(preq, [c |-> env.c, id |-> id, kind |-> kind, pay |-> "",
                                        md |-> MdF(env.md), b |-> 0, meth |-> env.meth, src |-> env.src, dst |-> env.dst])
-  /\ UNCHANGED <<cfg, phase, calls, byId, hi, gaps, cw, sw, nCR, cin, hnds, hOf,
+  \* a reset reaches the handler that currently owns the id
+  /\ hnds' = IF env.h = 1 /\ KindOfMeth(env.meth) \notin {"", "unary"} /\ env.dst = cfg.srv /\ IsRst(env)
+                 /\ env.id \in DOMAIN hOf
+               THEN [hnds EXCEPT ![hOf[env.id]].rst = TRUE] ELSE hnds
+  /\ UNCHANGED <<cfg, phase, calls, byId, hi, gaps, cw, sw, nCR, cin, hOf,
                  flt, creg, sreg, base, pend, live, cregN, parked>>
 
 -----------------------------------------------------------------------------
@@ -295,10 +305,10 @@ HStart(h, c, kind, pay, md, dlus) ==
                               sent |-> <<>>, sres |-> <<>>, lastW |-> 0,
                               hdr |-> EmptyF, pendHdr |-> EmptyF, hdrPending |-> FALSE, hdrW |-> FALSE,
                               trl |-> EmptyF, ret |-> FALSE, rc |-> -1, rmsg |-> "", rndet |-> 0,
-                              rpay |-> "", trW |-> FALSE,
-                              dl |-> IF dlus >= 0 THEN now + ((dlus + 999) \div 1000) ELSE -1,
+                              rpay |-> "", trW |-> FALSE, rst |-> FALSE,
+                              dl |-> IF dlus >= 0 THEN T + ((dlus + 999) \div 1000) ELSE -1,
                               meth |-> r.meth, src |-> r.src, dst |-> r.dst])
-     /\ hOf' = Put(hOf, r.id, h)
+     /\ hOf' = IF kind = "unary" THEN hOf ELSE Put(hOf, r.id, h)
   /\ UNCHANGED <<cfg, phase, calls, byId, hi, gaps, cw, nSR, sw, nCR, cin, sin,
                  flt, creg, sreg, base, pend, live, cregN, parked>>
 
@@ -395,7 +405,7 @@ ServerWrite(env) ==
         /\ env.r = 1 /\ env.t = 1 /\ env.b = 0 /\ env.rtype = "RST_STREAM"
         /\ LET s == Sin(env.id) IN
            /\ G("wire", s.must + s.may > 0)
-           /\ G("wire", env.h = 1 /\ env.meth = s.meth /\ env.src = s.dst /\ env.dst = s.src)
+           /\ G("wire", env.h = 1 /\ <<env.meth, env.dst, env.src>> \in s.hdrs)
            \* it never overtakes the trailer of a stream that ended normally
            /\ G("wire", env.id \in DOMAIN hOf =>
                 LET x == hnds[hOf[env.id]] IN
@@ -403,43 +413,55 @@ ServerWrite(env) ==
            /\ sin' = Put(sin, env.id, IF s.must > 0 THEN [s EXCEPT !.must = @ - 1]
                                       ELSE IF s.may > 0 THEN [s EXCEPT !.may = @ - 1] ELSE s)
         /\ UNCHANGED hnds
-     \/ \* an envelope of a handler
+     \/ \* the response of a unary handler: exactly one, with header, trailer and a body or a non-OK status
         /\ env.r = 0
+        /\ env.h = 1 /\ KindOfMeth(env.meth) = "unary"
+        /\ LET cand == {h \in DOMAIN hnds : hnds[h].kind = "unary" /\ hnds[h].id = env.id /\ hnds[h].ret /\ ~hnds[h].trW}
+               fits(h) == hnds[h].rc = OK => env.pay = hnds[h].rpay
+           IN
+           /\ G("wire", cand # {})
+           /\ cand # {} =>
+                LET h == IF \E g \in cand : fits(g) THEN CHOOSE g \in cand : fits(g) ELSE CHOOSE g \in cand : TRUE
+                    x == hnds[h] IN
+                /\ G("wire", RespHdrConst(env, x))
+                /\ G("wire", env.t = 1)
+                /\ StatusMatches(env, h)
+                /\ x.rc = OK => G("wire", env.b = 1) /\ G("pay", env.pay = x.rpay)
+                /\ G("md", MdF(env.md) = x.hdr /\ MdF(env.tmd) = x.trl)
+                /\ hnds' = [hnds EXCEPT ![h].trW = TRUE]
+           /\ cand = {} => UNCHANGED hnds
+        /\ UNCHANGED sin
+     \/ \* an envelope of a stream handler
+        /\ env.r = 0
+        /\ ~(env.h = 1 /\ KindOfMeth(env.meth) = "unary")
         /\ env.id \in DOMAIN hOf
         /\ LET h == hOf[env.id]
                x == hnds[h]
                md == MdF(env.md) IN
-           /\ G("wire", ~x.trW)                 \* nothing after the close / the response
+           /\ G("wire", ~x.trW)                 \* nothing after the close
            /\ G("wire", RespHdrConst(env, x))
-           /\ IF x.kind = "unary"
-                THEN \* exactly one response: header, trailer and a body or a non-OK status
-                     /\ x.ret /\ G("wire", env.t = 1)
-                     /\ StatusMatches(env, h)
-                     /\ x.rc = OK => G("wire", env.b = 1) /\ G("pay", env.pay = x.rpay)
-                     /\ G("md", md = x.hdr /\ MdF(env.tmd) = x.trl)
-                     /\ hnds' = [hnds EXCEPT ![h].trW = TRUE]
-                ELSE \/ \* explicit header
-                        /\ env.b = 0 /\ env.t = 0 /\ env.s = 0
-                        /\ G("wire", x.hdrPending /\ ~x.hdrW)
-                        /\ G("md", md = Cat2(x.hdr, x.pendHdr))
-                        /\ hnds' = [hnds EXCEPT ![h].hdrW = TRUE]
-                     \/ \* message
-                        /\ env.b = 1 /\ env.t = 0 /\ env.s = 0
-                        /\ HasNextSend(x)
-                        /\ G("pay", env.pay = x.sent[NextSend(x)])
-                        /\ G("md", md = IF x.hdrW THEN EmptyF ELSE x.hdr)
-                        /\ hnds' = [hnds EXCEPT ![h].lastW = NextSend(x), ![h].hdrW = TRUE]
-                     \/ \* close
-                        /\ env.t = 1 /\ env.b = 0
-                        /\ x.ret /\ G("wire", ~HasNextSend(x))
-                        /\ StatusMatches(env, h)
-                        /\ G("md", md = IF x.hdrW THEN EmptyF ELSE x.hdr)
-                        /\ G("md", MdF(env.tmd) = x.trl)
-                        /\ hnds' = [hnds EXCEPT ![h].trW = TRUE, ![h].hdrW = TRUE]
+           /\ \/ \* explicit header
+                 /\ env.b = 0 /\ env.t = 0 /\ env.s = 0
+                 /\ G("wire", x.hdrPending /\ ~x.hdrW)
+                 /\ G("md", md = Cat2(x.hdr, x.pendHdr))
+                 /\ hnds' = [hnds EXCEPT ![h].hdrW = TRUE]
+              \/ \* message
+                 /\ env.b = 1 /\ env.t = 0 /\ env.s = 0
+                 /\ HasNextSend(x)
+                 /\ G("pay", env.pay = x.sent[NextSend(x)])
+                 /\ G("md", md = IF x.hdrW THEN EmptyF ELSE x.hdr)
+                 /\ hnds' = [hnds EXCEPT ![h].lastW = NextSend(x), ![h].hdrW = TRUE]
+              \/ \* close
+                 /\ env.t = 1 /\ env.b = 0
+                 /\ x.ret /\ G("wire", ~HasNextSend(x))
+                 /\ StatusMatches(env, h)
+                 /\ G("md", md = IF x.hdrW THEN EmptyF ELSE x.hdr)
+                 /\ G("md", MdF(env.tmd) = x.trl)
+                 /\ hnds' = [hnds EXCEPT ![h].trW = TRUE, ![h].hdrW = TRUE]
         /\ UNCHANGED sin
      \/ \* reply to a unary request with undecodable metadata: an error status, no handler
-        /\ env.r = 0 /\ env.t = 1 /\ env.s = 1 /\ env.code # OK
-        /\ env.id \notin DOMAIN hOf
+        /\ env.r = 0 /\ env.t = 1 /\ env.s = 1 /\ env.code # OK /\ env.b = 0
+        /\ ~\E h \in DOMAIN hnds : hnds[h].kind = "unary" /\ hnds[h].id = env.id /\ hnds[h].ret /\ ~hnds[h].trW
         /\ Sin(env.id).may > 0
         /\ sin' = Put(sin, env.id, [Sin(env.id) EXCEPT !.may = @ - 1])
         /\ UNCHANGED hnds
@@ -471,7 +493,7 @@ ClientRead(env, n) ==
                  THEN [x1 EXCEPT !.close = IF env.r = 1 THEN "rst"
                                            ELSE IF env.s = 0 \/ env.code = OK THEN "ok" ELSE "err",
                                  !.code = env.code, !.msg = env.msg, !.ndet = env.ndet, !.tmd = MdF(env.tmd),
-                                 !.fbad = @ \/ env.badmd = 1]
+                                 !.tbad = (env.badtmd = 1)]
                ELSE IF env.r = 1 THEN [x1 EXCEPT !.mayRst = TRUE]
                ELSE IF env.b = 1 THEN [x1 EXCEPT !.bodies = Append(@, env.pay)]
                ELSE x1
@@ -562,8 +584,10 @@ SRecvRet(c, res, code, msg, ndet, pay, plain) ==
              \/ x.fbad
              \/ plain /\ k.recvd < Len(x.bodies) /\ x.bodies[k.recvd + 1] = "raw!"
              \/ k.term = "err" /\ code = k.tcode ) = TRUE
-        /\ CUpd(c, [k EXCEPT !.term = IF @ = "" THEN "err" ELSE @, !.tcode = IF k.term = "" THEN code ELSE @,
-                             !.recvd = IF plain /\ k.recvd < Len(x.bodies) /\ x.bodies[k.recvd + 1] = "raw!" THEN @ + 1 ELSE @])
+        /\ LET rawb == plain /\ k.recvd < Len(x.bodies) /\ x.bodies[k.recvd + 1] = "raw!" IN
+           \* an undecodable message is consumed and reported; the stream goes on
+           CUpd(c, [k EXCEPT !.term = IF @ = "" /\ ~rawb THEN "err" ELSE @, !.tcode = IF k.term = "" /\ ~rawb THEN code ELSE @,
+                             !.recvd = IF rawb THEN @ + 1 ELSE @])
 
 SHdrRet(c, res, md, isnil) ==
   /\ c \in DOMAIN calls /\ calls[c].opened = "ok"
@@ -578,7 +602,7 @@ STrl(c, md, isnil) ==
   /\ LET x == Cin(calls[c].id) IN
      \* after a terminal result that came from the close envelope, the trailer is that envelope's
      (calls[c].term = "eof" \/ (calls[c].term = "err" /\ x.close = "err" /\ ~CtxDone(c) /\ ~CliDown))
-        => G("md", IF isnil THEN x.tmd = EmptyF ELSE md = x.tmd)
+        => G("md", x.tbad \/ IF isnil THEN x.tmd = EmptyF ELSE md = x.tmd)
   /\ UNCHANGED varsNoNow
 
 -----------------------------------------------------------------------------
@@ -586,6 +610,11 @@ STrl(c, md, isnil) ==
 
 Fault(what) ==
   /\ flt' = flt \cup {what}
+  /\ UNCHANGED <<cfg, phase, calls, byId, hi, gaps, cw, nSR, sw, nCR, cin, sin, preq, hnds, hOf,
+                 creg, sreg, base, pend, live, cregN, parked>>
+
+Unfault(what) ==
+  /\ flt' = flt \ {what}
   /\ UNCHANGED <<cfg, phase, calls, byId, hi, gaps, cw, nSR, sw, nCR, cin, sin, preq, hnds, hOf,
                  creg, sreg, base, pend, live, cregN, parked>>
 
@@ -678,7 +707,7 @@ Quiesce(ngor) ==
   \* registries (C14)
   /\ G("reg", cregN >= 0 => cregN = Cardinality(creg))
   /\ G("reg", ~Stuck => \A c \in DOMAIN calls : ClientFinished(c) /\ calls[c].id # "" => calls[c].id \notin creg)
-  /\ G("reg", ~Stuck => \A h \in DOMAIN hnds : hnds[h].ret /\ hnds[h].kind # "unary" => hnds[h].id \notin sreg)
+  /\ G("reg", ~Stuck => \A h \in DOMAIN hnds : hnds[h].ret /\ hnds[h].kind # "unary" /\ Get(hOf, hnds[h].id, 0) = h => hnds[h].id \notin sreg)
   /\ G("reg", (Idle /\ ~Stuck) => creg = {} /\ sreg = {} /\ (cfg.ncli = 1 => ngor <= base))
   \* after a quiescent point a finished stream is definitely unregistered
   /\ sin' = [id \in DOMAIN sin |-> IF sin[id].st = "closing" /\ ~Stuck THEN [sin[id] EXCEPT !.st = "dead"] ELSE sin[id]]
